@@ -288,6 +288,50 @@ theorem fixTuple_delimited (lines : List Line) (a : TupIn) (hd : a.isDelim = som
   · have : (a.nElts != 0) = true := by simp [h0]
     simp [this, h0]
 
+/-- **`fixTuple_delimits`.**  A naked (unparenthesised) tuple with two or more elements that is not the root, spans
+several lines and is not enclosed by its parents (or holds an unparenthesised walrus) gets parentheses when
+`par_if_needed`: `_fix_Tuple` answers "delimited" and the flat source gains exactly `(` at the start of the tuple and `)`
+at its end — the text before, between and after is untouched.  (Full statement wanted: also the root / `whole` variant,
+where a trailing continuation is removed and a trailing comment pushes the `)` to a new line, and the not-needed branch
+that trims the span to its elements; both are modelled — `delimitNode`, `fixUndelimTrim` — and tied by the
+correspondence, not proved.) -/
+theorem fixTuple_delimits_partial (lines : List Line) (a : TupIn) (hd : a.isDelim = some false) (hn : 2 ≤ a.nElts)
+    (hpar : a.parIfNeeded = true) (hroot : a.isRoot = false)
+    (hneed : (a.self.endLn ≠ a.self.ln ∧ a.enclosed = false) ∨ a.namedExpr = true)
+    (hend : a.self.endLn < lines.length) (hord : Pfst.Text.le2 a.self.ln a.self.col a.self.endLn a.self.endCol)
+    (hc : a.self.col ≤ (lineAt lines a.self.ln).length) (hec : a.self.endCol ≤ (lineAt lines a.self.endLn).length) :
+    (fixTuple lines a).delimited = true ∧
+    Pfst.Text.flat (fixTuple lines a).lines
+      = (Pfst.Text.flat lines).take (Pfst.Text.off lines a.self.ln a.self.col) ++ ['(']
+        ++ Pfst.Text.getFlat lines a.self.ln a.self.col a.self.endLn a.self.endCol ++ [')']
+        ++ (Pfst.Text.flat lines).drop (Pfst.Text.off lines a.self.endLn a.self.endCol) := by
+  have h1 : (a.nElts != 0) = true := by simp; omega
+  have h2 : (a.nElts == 1) = false := by simp; omega
+  have h3 : (a.nElts == 0) = false := by simp; omega
+  have hcond : (a.parIfNeeded && (!(a.self.endLn == a.self.ln || a.enclosed) || a.namedExpr)) = true := by
+    rw [hpar]
+    rcases hneed with ⟨n1, n2⟩ | n3
+    · have : (a.self.endLn == a.self.ln) = false := by simp [n1]
+      simp [this, n2]
+    · simp [n3]
+  have hun : fixTuple lines a
+      = ⟨true, delimitNode lines a.self false (some (a.fn.endLn, a.fn.endCol)) '(' ')'⟩ := by
+    unfold fixTuple maybeAddSingletonComma
+    simp only [hd, h1, h2, h3, ↓reduceIte, Bool.false_eq_true, hcond, hroot]
+  rw [hun]
+  refine ⟨rfl, ?_⟩
+  exact delimitNode_flat lines a.self.ln a.self.col a.self.endLn a.self.endCol (some (a.fn.endLn, a.fn.endCol)) '(' ')'
+    hend hord hc hec
+
+/-- **`fixTuple_empty`.**  An empty naked tuple whose area holds no code and no comment is replaced, whole area, by
+`()`: `_fix_Tuple` answers "delimited" and the new lines are one `_put_src(['()'], area)`. -/
+theorem fixTuple_empty (lines : List Line) (a : TupIn) (hd : a.isDelim = some false) (hn : a.nElts = 0)
+    (hblank : nextFrag lines a.self.ln a.self.col a.self.endLn a.self.endCol true .f = none) :
+    fixTuple lines a
+      = ⟨true, Pfst.Text.putSrc lines [['(', ')']] a.self.ln a.self.col a.self.endLn a.self.endCol⟩ := by
+  unfold fixTuple fixUndelimEmpty
+  simp [hd, hn, hblank]
+
 /-! ## non-vacuity: concrete sources on which the hypotheses hold and the functions do something -/
 
 private def src1 : List Line := ["[a, (b) , c]".toList]
@@ -324,5 +368,17 @@ example : fixTuple ["(a)".toList] tup1 = ⟨true, ["(a,)".toList]⟩ := by decid
 example : (maybeAddSingletonComma ["((a) )".toList] 1 (0, 3) (0, 6) true).lines = ["((a), )".toList] := by decide
 example : (maybeAddSingletonComma ["(a,)".toList] 1 (0, 2) (0, 4) true).lines = ["(a,)".toList] := by decide
 example : (maybeAddSingletonComma ["(a, b)".toList] 2 (0, 2) (0, 6) true).lines = ["(a, b)".toList] := by decide
+
+-- a naked two-line tuple inside `f[...]`-less context (an assignment value) gets its parentheses
+private def src4 : List Line := ["x = a,".toList, "    b".toList]
+private def tup4 : TupIn :=
+  { self := ⟨0, 4, 1, 5⟩, nElts := 2, f0 := ⟨0, 4, 0, 5⟩, fn := ⟨1, 4, 1, 5⟩, p0 := (0, 4), pn := (1, 5),
+    isDelim := some false, parIfNeeded := true, isRoot := false, enclosed := false, namedExpr := false, extra := [] }
+example : fixTuple src4 tup4 = ⟨true, ["x = (a,".toList, "    b)".toList]⟩ := by decide
+-- an empty naked tuple (what is left of `a,` after its element was cut) becomes `()`
+private def tup5 : TupIn :=
+  { self := ⟨0, 4, 0, 5⟩, nElts := 0, f0 := ⟨0, 0, 0, 0⟩, fn := ⟨0, 0, 0, 0⟩, p0 := (0, 0), pn := (0, 0),
+    isDelim := some false, parIfNeeded := true, isRoot := false, enclosed := true, namedExpr := false, extra := [] }
+example : fixTuple ["x =  ".toList] tup5 = ⟨true, ["x = ()".toList]⟩ := by decide
 
 end Pfst.C01b
